@@ -119,8 +119,9 @@ CONC = {
     "oplaunch": ["O"], "opsignal": ["O"], "opstartgroup": ["O"], "opadd": ["O"],
     "wlaunch": ["W"], "wsignal": ["W"], "wbackground": ["W"], "pbackground": ["P"], "xbackground": ["X"],
     "wstartgroup": ["W"],
+    "plaunch": ["P"],
 }
-BACKGROUND = {"oplaunch", "opsignal", "opstartgroup", "opadd", "wlaunch", "wsignal", "wbackground", "pbackground",
+BACKGROUND = {"plaunch", "oplaunch", "opsignal", "opstartgroup", "opadd", "wlaunch", "wsignal", "wbackground", "pbackground",
               "xbackground", "wstartgroup"}
 ONCE_KIND = {"M": "F", "D": "F", "A": "F", "T": "O"}
 
@@ -492,6 +493,15 @@ def conc_predicate(t, obs):
             return f"Lock: {g} calls, {inv} executions"
         if sorted(res) != sorted(outcome(j) for j in range(g)):
             return "Lock: results are not the executions' results"
+        return None
+    if subject == "plaunch":
+        # the j-th value can only be received after the j-th successful execution has ended: at the
+        # quiescent point after j tokens at most j waiters have returned (all of them once the stream ended)
+        for j, (ret, inside) in enumerate(phases):
+            if inside > 1:
+                return "Producer.Launch ran two executions at once"
+            if inside > 0 and ret > j:
+                return f"Producer.Launch: {ret} waiters had returned when only {j} executions had ended"
         return None
     # background starters: no waiter may return while an execution is still in progress
     total = n if subject in ("opstartgroup", "wstartgroup", "opadd") else 1
